@@ -69,6 +69,20 @@ Theorem C08_holder_leaves_only_by_unlock : forall c s l s' t i, step c s l = Som
 Proof. exact holder_leaves_only_by_unlock. Qed.
 Print Assumptions C08_holder_leaves_only_by_unlock.
 
+(** A free lock is obtained at once, and a released lock stays free until the next Lock
+    call takes it (no old heartbeat, waiter or kill makes a lock file appear). *)
+Theorem C08_free_lock_obtained_at_once : forall c s t ec,
+  file s = None -> cs s t = CTry ec -> lastcreate s < now s ->
+  exists s2, run c s [LTryCreate t; LWriteMeta t] = Some s2 /\ cs s2 t = CHolding (nexti s) /\
+             file s2 = Some (nexti s) /\ now s2 = now s.
+Proof. exact free_lock_obtained_at_once. Qed.
+Print Assumptions C08_free_lock_obtained_at_once.
+
+Theorem C08_only_create_makes_lock_file : forall c s l s', step c s l = Some s' ->
+  file s = None -> file s' <> None -> exists t, l = LTryCreate t.
+Proof. exact only_create_makes_lock_file. Qed.
+Print Assumptions C08_only_create_makes_lock_file.
+
 (** A blocked acquisition returns at once with the context's error when cancelled; and a
     Lock call waits nowhere else than in the select. *)
 Theorem C08_cancel_prompt : forall c s t ec until, cs s t = CSleep ec until ->
@@ -223,8 +237,8 @@ Proof. unfold H_live, d2, lock_stale_factor, lock_freshness_interval. lia. Qed.
     another polls *)
 Definition demo_live : list label :=
   [LStart 0 0; LTryCreate 0; LWriteMeta 0; LStart 1 1; LTryCreate 1; LOpenRead 1;
-   LTick 5000000000; LHbWake 0; LHbWrite 0; LWake 1; LTryCreate 1; LOpenRead 1;
-   LTick 5000000000; LHbWake 0; LWake 1; LTryCreate 1; LOpenRead 1; LHbWrite 0]%nat.
+   LTick lock_freshness_interval; LHbWake 0; LHbWrite 0; LWake 1; LTryCreate 1; LOpenRead 1;
+   LTick lock_freshness_interval; LHbWake 0; LWake 1; LTryCreate 1; LOpenRead 1; LHbWrite 0]%nat.
 
 Fixpoint reach_run (c : config) (ok : state -> label -> bool) (s : state) (ls : list label) : option state :=
   match ls with
@@ -259,7 +273,7 @@ Qed.
 
 Example C08_live_run_nontrivial :
   exists s, reach (cfg_repo d2) (live_ok (cfg_repo d2)) init s /\
-            cs s 0%nat = CHolding 0%nat /\ (exists ec u, cs s 1%nat = CSleep ec u) /\ now s = 10000000000.
+            cs s 0%nat = CHolding 0%nat /\ (exists ec u, cs s 1%nat = CSleep ec u) /\ now s = 2 * lock_freshness_interval.
 Proof.
   destruct (reach_run (cfg_repo d2) (live_okb (cfg_repo d2)) init demo_live) as [s|] eqn:E; [|vm_compute in E; discriminate].
   exists s. split.
@@ -298,12 +312,12 @@ Qed.
     is killed; 10 s and a bit later the waiter (thread 1) is at the top of its loop *)
 Definition demo_before_kill : list label :=
   [LStart 0 0; LTryCreate 0; LWriteMeta 0; LStart 1 1; LTryCreate 1; LOpenRead 1;
-   LTick 5000000000; LHbWake 0; LHbWrite 0; LTick 1000000000]%nat.
-Definition demo_after_kill : list label := [LTick 10000000001; LWake 1%nat].
+   LTick lock_freshness_interval; LHbWake 0; LHbWrite 0; LTick file_lock_poll_interval]%nat.
+Definition demo_after_kill : list label := [LTick (lock_stale_factor * lock_freshness_interval + 1); LWake 1%nat].
 Example C08_recovery_hypotheses_satisfiable :
   exists s0 s s', reach_run (cfg_repo d2) (fun _ _ => true) init demo_before_kill = Some s0 /\
     cs s0 0%nat = CHolding 0%nat /\ file s0 = Some 0%nat /\
-    content s0 0%nat = FMeta (Some 0) (Some 5000000000) /\
+    content s0 0%nat = FMeta (Some 0) (Some lock_freshness_interval) /\
     step (cfg_repo d2) s0 (LKill (cproc s0 0%nat)) = Some s /\
     run (cfg_repo d2) s demo_after_kill = Some s' /\ file s' = Some 0%nat /\
     lock_stale_factor * lock_freshness_interval < now s' - now s0 /\ cs s' 1%nat = CTry 0.
